@@ -3,7 +3,7 @@ import Apko.Model.Sbom
 line-protocol handlers for corr:sbom (C11).
 
 Encoding (all strings hex, so the separators never occur inside them):
-  list of strings      `h,h,h`
+  list of strings      `.h,.h,.h`
   package              `id,name,version,alg~val+alg~val`
   relationship         `element,type,related`
   document             `describes|pkg;pkg|rel;rel|lic,text;lic,text`
@@ -20,6 +20,9 @@ namespace Apko.Driver.Sbom
 open Apko Apko.Sbom
 
 def splitL (sep : String) (s : String) : List String := if s.isEmpty then [] else s.splitOn sep
+
+/-- list of strings: every item is `.` followed by hex -/
+def parseStrs (s : String) : List Text := (splitL "," s).map fun x => unhexS (x.drop 1).toString
 
 def parsePair (s : String) : Text × Text :=
   match s.splitOn "~" with
@@ -44,7 +47,7 @@ def parseLic (s : String) : Text × Text :=
 def parseDoc (s : String) : Doc :=
   match s.splitOn "|" with
   | [d, p, r, l] =>
-    ⟨(splitL "," d).map unhexS, (splitL ";" p).map parsePkg, (splitL ";" r).map parseRel,
+    ⟨parseStrs d, (splitL ";" p).map parsePkg, (splitL ";" r).map parseRel,
      (splitL ";" l).map parseLic⟩
   | _ => ⟨[], [], [], []⟩
 
@@ -53,7 +56,7 @@ def showPkg (p : Pkg) : String :=
     "+".intercalate (p.checksums.map fun c => s!"{hexS c.1}~{hexS c.2}")
 
 def showDoc (d : Doc) : String :=
-  ",".intercalate (d.describes.map hexS) ++ "|" ++
+  ",".intercalate (d.describes.map fun i => "." ++ hexS i) ++ "|" ++
   ";".intercalate (d.packages.map showPkg) ++ "|" ++
   ";".intercalate (d.rels.map fun r => s!"{hexS r.element},{hexS r.type},{hexS r.related}") ++ "|" ++
   ";".intercalate (d.lics.map fun l => s!"{hexS l.1},{hexS l.2}")
@@ -123,13 +126,14 @@ def handle (args : List String) : Option String :=
   | ["s.rep", d, a, b] =>
     let doc := parseDoc d
     let impl := showDoc (replacePackage doc (unhexS a) (unhexS b))
-    let spec := showDoc (Spec.replacePackage doc (unhexS a) (unhexS b))
-    some <| triple impl spec (if impl = spec then "-" else if a = b then "F11b" else "unlisted")
+    -- Spec: replacing an id by itself changes nothing; otherwise the body of the function
+    let spec := if a = b then showDoc doc else showDoc (replaceBody doc (unhexS a) (unhexS b))
+    some <| triple impl spec (if impl = spec then "-" else "unlisted")
   | ["s.copy", src, tgt, todo] =>
-    let r := showRes (copyElements (parseDoc src) (parseDoc tgt) ((splitL "," todo).map unhexS))
+    let r := showRes (copyElements (parseDoc src) (parseDoc tgt) (parseStrs todo))
     some <| triple r r "-"
   | ["s.gen", dig, layers, vcs, osv, apks, fsS, goRes] =>
-    let o : Opts := ⟨unhexS dig, (splitL "," layers).map unhexS, unhexS vcs, unhexS osv,
+    let o : Opts := ⟨unhexS dig, parseStrs layers, unhexS vcs, unhexS osv,
                      (splitL ";" apks).map parseApk⟩
     let fs : SbomDir := (splitL "/" fsS).map parseEntry
     let ks := if multiTarget o fs then List.range 24 else [0]
